@@ -34,6 +34,9 @@ pub assume_specification [crate::vm::vector::Vector::get] (v: &crate::vm::vector
 pub assume_specification [crate::vm::vector::Vector::put] (v: &crate::vm::vector::Vector, i: usize, x: crate::vm::vcell::VCell)
     requires i < vector_view(*v).len() ensures vector_written(*v, i as int, x);
 pub assume_specification [crate::vm::vector::Vector::new] (x: Vec<crate::vm::vcell::VCell>) -> (r: crate::vm::vector::Vector) ensures vector_view(r) == x@;
+/// clone_vector clamps both bounds and treats `end` as inclusive (pinned by the suite); an empty vector yields an empty copy
+pub assume_specification [crate::vm::vector::Vector::clone_vector] (v: &crate::vm::vector::Vector, start: Option<usize>, end: Option<usize>) -> (r: Vec<crate::vm::vcell::VCell>)
+    ensures end is None && (start matches Some(s) ==> s <= vector_view(*v).len()) ==> r@ == vector_view(*v).subrange((match start { Some(s) => s as int, None => 0int }), vector_view(*v).len() as int);
 '''},
     'EnvView': {'needs': ['LexicalEnvironment', 'VCell'], 'decl': '''
 pub uninterp spec fn env_view(e: crate::vm::environment::LexicalEnvironment) -> Seq<crate::vm::vcell::VCell>;
@@ -108,6 +111,35 @@ PROPS = {
                 'restore_continuation requires the saved stack to be no longer than the running one; this holds because stacks never shrink (every Stack operation under contract keeps or doubles the length) but is a whole-history fact, assumed at the call site',
                 '<[T]>::to_vec / clone_from_slice specs assumed',
             ]},
+    'C14': {'groups': ['builtins'],
+            'kani': [
+                {'harness': 'vcell_accessors', 'file': 'src/vm/vcell.rs', 'kind': 'complete', 'what': 'VCell::as_ptr/as_argc/as_car/as_cdr/as_bp/is_pair answer Ok(payload) exactly on the matching variant (their contracts are assumed on the Verus side)'},
+            ],
+            'assumptions': [
+                'scope: the vector procedures vector, vector-length, vector-ref, vector-set!, vector-fill!, vector-copy (start index), vector-copy!; pairs/lists, equal?, and the library procedures written in Scheme are NOT under contract',
+                'stores into the interior-mutable Vector are tracked as events: vector_written(v, i, x) can only be established by Vector::put(i, x); "no other slot is written" (frame) is not expressible and not decided; overlapping vector-copy! on one vector is not decided',
+                'Vector::put carries the precondition index < length, so its silently-ignore branch is proved dead at every call site',
+                'typed poppers pop_argc / pop_index / pop_vector build error text with format! (not ingestible): contracts assumed (what an Ok answer means, and that a well-typed cell yields Ok)',
+                'Vector::{len,get,put,new,clone_vector}, VCell::vector: assumed specs over the uninterpreted payload view vector_view',
+                'executable rewrite inside verified bodies: `.unwrap_or_else(|| v.len())` -> `.unwrap_or(v.len())` (closure results are opaque to Verus; the argument is a pure length read)',
+            ]},
+    'C07': {'groups': ['run', 'stack'], 'search': 'search_fail',
+            'assumptions': [
+                'decided: the error arm of run_count leaves the machine in the idle top-level control state (sp = 0, every stack slot wiped, bp = 0, ep = none) with heap and globals exactly as the failing instruction left them; Stack::clear wipes every slot (proved in unit stack)',
+                'not decided: that later evaluations then behave as in a VM that only performed the completed effects (needs the semantics of compile + run_one); read/compile errors happen before run_count and do not touch the machine (by reading prepare_eval)',
+                'run_one / StackTrace::new / Stack::get_sp_mut: assumed contracts',
+            ]},
+    'C20': {'level': 'other', 'groups': [],
+            'explanation': 'BOUNDED (never counted as proved): Kani/CBMC harnesses inside syntax.rs check find_matching_bracket and find_token_at_cursor against an executable nesting oracle written from the property text, for every token stream of 1..5 tokens (6 in the thorough tier) over the types ( ) #( symbol string with symbolic spans and every cursor / token index. highlight() and highlight_check() themselves run lex::scan and str slicing, which neither verifier ingests: escape insertion by byte span is not decided.',
+            'kani': [
+                {'harness': 'syntax_partner_n1', 'file': 'src/syntax.rs', 'kind': 'bounded', 'bound': 'token streams of exactly 1 tokens (types ( ) #( symbol string, widths 1-2, gaps 0-1), every token index and cursor', 'tier': 'quick', 'timeout': 900, 'what': 'find_matching_bracket == nesting oracle; find_token_at_cursor == covering token else the one before'},
+                {'harness': 'syntax_partner_n2', 'file': 'src/syntax.rs', 'kind': 'bounded', 'bound': 'token streams of exactly 2 tokens (types ( ) #( symbol string, widths 1-2, gaps 0-1), every token index and cursor', 'tier': 'quick', 'timeout': 900, 'what': 'find_matching_bracket == nesting oracle; find_token_at_cursor == covering token else the one before'},
+                {'harness': 'syntax_partner_n3', 'file': 'src/syntax.rs', 'kind': 'bounded', 'bound': 'token streams of exactly 3 tokens (types ( ) #( symbol string, widths 1-2, gaps 0-1), every token index and cursor', 'tier': 'quick', 'timeout': 900, 'what': 'find_matching_bracket == nesting oracle; find_token_at_cursor == covering token else the one before'},
+                {'harness': 'syntax_partner_n4', 'file': 'src/syntax.rs', 'kind': 'bounded', 'bound': 'token streams of exactly 4 tokens (types ( ) #( symbol string, widths 1-2, gaps 0-1), every token index and cursor', 'tier': 'quick', 'timeout': 900, 'what': 'find_matching_bracket == nesting oracle; find_token_at_cursor == covering token else the one before'},
+                {'harness': 'syntax_partner_n5', 'file': 'src/syntax.rs', 'kind': 'bounded', 'bound': 'token streams of exactly 5 tokens (types ( ) #( symbol string, widths 1-2, gaps 0-1), every token index and cursor', 'tier': 'quick', 'timeout': 900, 'what': 'find_matching_bracket == nesting oracle; find_token_at_cursor == covering token else the one before'},
+                {'harness': 'syntax_partner_n6', 'file': 'src/syntax.rs', 'kind': 'bounded', 'bound': 'token streams of exactly 6 tokens (types ( ) #( symbol string, widths 1-2, gaps 0-1), every token index and cursor', 'tier': 'thorough', 'timeout': 900, 'what': 'find_matching_bracket == nesting oracle; find_token_at_cursor == covering token else the one before'}
+            ],
+            'assumptions': ['bounded: at most 6 tokens; the scanner (lex::scan), the text slicing in highlight() and highlight_check() are not covered']},
     'C13': {'groups': ['run'], 'search': 'search_run',
             'assumptions': [
                 'run_one is a deterministic function of the observable machine state (heap, globals, stack, acc, ep, ip, bp): step_obs/step_kind/step_err are uninterpreted and run_one is assumed to implement them (its body is not verified here)',
